@@ -52,6 +52,10 @@ func (p *Prog) mentionsHeavy(t *Term, memo map[int]bool) bool {
 
 // heavySpec: spec functions that belong to the same recursive family as specEval.
 func (p *Prog) heavySpec(name string) bool {
+	return true
+}
+
+func (p *Prog) heavySpecOld(name string) bool {
 	if _, ok := p.specs["specEval"]; !ok {
 		return false
 	}
@@ -165,7 +169,7 @@ func (p *Prog) BuildQueryCOI(o *Obligation) (string, bool) {
 	asserts = append(asserts, Not(o.Goal))
 	asserts = append(asserts, p.unfoldFor(o, asserts)...)
 	if !o.noLemmas {
-		asserts = append(asserts, p.lemmaAxioms()...)
+		asserts = append(asserts, p.lemmaAxiomsFor(asserts)...)
 	}
 	return p.buildScript(asserts, nil), true
 }
@@ -173,6 +177,14 @@ func (p *Prog) BuildQueryCOI(o *Obligation) (string, bool) {
 // unfoldFor: instances for the applications in the goal (with fuel), plus one unfolding of the
 // applications in the most recent hypotheses (loop invariants / induction hypotheses of the last calls).
 func (p *Prog) unfoldFor(o *Obligation, asserts []*Term) []*Term {
+	// equalities among the unconditional hypotheses (requires) of this function
+	extraEqs = nil
+	for _, f := range asserts {
+		if f.Head == "=" && len(f.Args) == 2 && !isIntLitTerm(f.Args[0]) && !isIntLitTerm(f.Args[1]) && f.Args[0].S == SInt {
+			extraEqs = append(extraEqs, [2]*Term{f.Args[0], f.Args[1]})
+		}
+	}
+	defer func() { extraEqs = nil }()
 	fuel := unfoldFuel
 	if strings.HasPrefix(o.Kind, "loop") {
 		// continuation-style invariants: the step is one unfolding of the application in the
@@ -183,6 +195,9 @@ func (p *Prog) unfoldFor(o *Obligation, asserts []*Term) []*Term {
 	if !p.mentionsHeavy(o.Goal, map[int]bool{}) {
 		return out
 	}
+	if hs := p.relevantHints(o); len(hs) > 0 {
+		out = append(out, p.unfoldInstances(hs, 1, 12)...)
+	}
 	// recent facts: walk backwards, stop after a few instances
 	var recent []*Term
 	for i := len(asserts) - 2; i >= 0 && len(recent) < 12; i-- {
@@ -190,6 +205,79 @@ func (p *Prog) unfoldFor(o *Obligation, asserts []*Term) []*Term {
 	}
 	out = append(out, p.unfoldInstances(recent, 1, 10)...)
 	return out
+}
+
+// BuildQueryGround: recursive spec functions uninterpreted, with ground unfoldings of the
+// applications in the goal, in the assumed loop invariants and in the recent hypotheses.
+func hasQuant(t *Term, memo map[int]bool) bool {
+	if v, ok := memo[t.id]; ok {
+		return v
+	}
+	r := t.Bind != nil
+	if !r {
+		for _, a := range t.Args {
+			if hasQuant(a, memo) {
+				r = true
+				break
+			}
+		}
+	}
+	memo[t.id] = r
+	return r
+}
+
+func (p *Prog) BuildQueryGround(o *Obligation) (string, bool) {
+	return p.buildQueryGround(o, false)
+}
+
+// buildQueryGround with qf=true additionally drops every quantified hypothesis and the quantified
+// library axioms (lemmas with triggers stay): fewer hypotheses, so unsat remains sound.
+func (p *Prog) buildQueryGround(o *Obligation, qf bool) (string, bool) {
+	if !p.mentionsHeavy(o.Goal, map[int]bool{}) {
+		return "", false
+	}
+	facts := p.relevantFacts(o)
+	if qf {
+		memo := map[int]bool{}
+		var kept []*Term
+		for _, f := range facts {
+			if !hasQuant(f, memo) {
+				kept = append(kept, f)
+			}
+		}
+		facts = kept
+	}
+	asserts := append([]*Term{}, facts...)
+	asserts = append(asserts, Not(o.Goal))
+	extraEqs = nil
+	for _, f := range asserts {
+		if f.Head == "=" && len(f.Args) == 2 && !isIntLitTerm(f.Args[0]) && !isIntLitTerm(f.Args[1]) && f.Args[0].S == SInt {
+			extraEqs = append(extraEqs, [2]*Term{f.Args[0], f.Args[1]})
+		}
+	}
+	defer func() { extraEqs = nil }()
+	var inst []*Term
+	inst = append(inst, p.unfoldInstances([]*Term{o.Goal}, 3, 30)...)
+	if hs0 := p.relevantHints(o); len(hs0) > 0 {
+		var hs []*Term
+		for _, h := range hs0 {
+			hs = append(hs, Implies(o.Goal.Args0(), h))
+		}
+		inst = append(inst, p.unfoldInstances(hs, 2, 20)...)
+	}
+	var recent []*Term
+	for i := len(facts) - 1; i >= 0 && len(recent) < 40; i-- {
+		recent = append(recent, Implies(o.Goal.Args0(), facts[i]))
+	}
+	inst = append(inst, p.unfoldInstances(recent, 1, 20)...)
+	asserts = append(asserts, inst...)
+	if !o.noLemmas {
+		asserts = append(asserts, p.lemmaAxiomsFor(asserts)...)
+	}
+	if qf {
+		return p.buildScriptOpts(asserts, nil, true, true), true
+	}
+	return p.buildScriptMode(asserts, nil, true), true
 }
 
 // BuildQueryLight drops the hypotheses that mention the evaluation-spec family (sound: fewer
@@ -213,13 +301,51 @@ func (p *Prog) BuildQueryLight(o *Obligation) (string, bool) {
 	}
 	asserts = append(asserts, Not(o.Goal))
 	if !o.noLemmas {
-		asserts = append(asserts, p.lemmaAxioms()...)
+		asserts = append(asserts, p.lemmaAxiomsFor(asserts)...)
 	}
 	return p.buildScript(asserts, nil), true
 }
 
 // relevantFacts: hypotheses emitted in blocks from which the obligation's block is reachable
 // (facts of sibling branches cannot matter; dropping hypotheses is sound).
+// relevantHints: assumed invariants of the loops whose header can reach the obligation's block.
+func (p *Prog) relevantHints(o *Obligation) []*Term {
+	var out []*Term
+	if len(o.hints) == 0 {
+		return nil
+	}
+	anc := p.ancestorBlocks(o)
+	for _, h := range o.hints {
+		if anc == nil || h.blk < 0 || anc[h.blk] {
+			out = append(out, h.t)
+		}
+	}
+	return out
+}
+
+func (p *Prog) ancestorBlocks(o *Obligation) map[int]bool {
+	if o.ex == nil || o.ex.fn == nil || o.blk < 0 || o.blk >= len(o.ex.fn.Blocks) {
+		return nil
+	}
+	fn := o.ex.fn
+	anc := map[int]bool{o.blk: true}
+	stack := []int{o.blk}
+	for len(stack) > 0 {
+		b := fn.Blocks[stack[len(stack)-1]]
+		stack = stack[:len(stack)-1]
+		for _, pr := range b.Preds {
+			if b.Dominates(pr) {
+				continue
+			}
+			if !anc[pr.Index] {
+				anc[pr.Index] = true
+				stack = append(stack, pr.Index)
+			}
+		}
+	}
+	return anc
+}
+
 func (p *Prog) relevantFacts(o *Obligation) []*Term {
 	facts := o.Facts[:o.NFacts]
 	if o.ex == nil || o.ex.fn == nil || o.factBlk == nil || o.blk < 0 || len(o.factBlk) < o.NFacts {
@@ -258,7 +384,7 @@ func (p *Prog) BuildQuery(o *Obligation, getModel []string) string {
 	asserts = append(asserts, Not(o.Goal))
 	asserts = append(asserts, p.unfoldFor(o, asserts)...)
 	if !o.noLemmas {
-		asserts = append(asserts, p.lemmaAxioms()...)
+		asserts = append(asserts, p.lemmaAxiomsFor(asserts)...)
 	}
 	return p.buildScript(asserts, getModel)
 }
@@ -266,26 +392,29 @@ func (p *Prog) BuildQuery(o *Obligation, getModel []string) string {
 // unfoldInstances adds ground instances f(args) = body[args] of the defining equations of
 // translated recursive spec functions for the applications occurring in the assertions
 // ("fuel"-bounded). Adding true instances only strengthens the hypotheses.
+// extraEqs: equalities between non-literal terms from the hypotheses, used to propagate
+// path-known literal values (e.g. tokenType == tokens[i-1].tokenType).
+var extraEqs [][2]*Term
+
 func (p *Prog) unfoldInstances(asserts []*Term, fuel int, limit int) []*Term {
 	// equalities t == literal that hold on the path of the goal (goal = guard => P): used to
 	// simplify the unfolded bodies (e.g. the node-type dispatch of specEval collapses to one clause)
 	known := map[*Term]*Term{}
 	for _, g := range asserts {
 		if g.Head == "=>" && len(g.Args) == 2 {
-			var conj []*Term
-			if g.Args[0].Head == "and" {
-				conj = g.Args[0].Args
-			} else {
-				conj = []*Term{g.Args[0]}
+			for k, v := range knownFrom(g.Args[0], 0) {
+				known[k] = v
 			}
-			for _, c := range conj {
-				if c.Head == "=" && len(c.Args) == 2 {
-					if isIntLitTerm(c.Args[1]) && !isIntLitTerm(c.Args[0]) {
-						known[c.Args[0]] = c.Args[1]
-					} else if isIntLitTerm(c.Args[0]) && !isIntLitTerm(c.Args[1]) {
-						known[c.Args[1]] = c.Args[0]
-					}
+		}
+	}
+	for iter := 0; iter < 2; iter++ {
+		for _, e := range extraEqs {
+			if v, ok := known[e[0]]; ok {
+				if _, ok2 := known[e[1]]; !ok2 {
+					known[e[1]] = v
 				}
+			} else if v, ok := known[e[1]]; ok {
+				known[e[0]] = v
 			}
 		}
 	}
@@ -370,6 +499,14 @@ func (p *Prog) specIsRecursive(name string) bool {
 }
 
 func (p *Prog) buildScript(asserts []*Term, getValues []string) string {
+	return p.buildScriptMode(asserts, getValues, false)
+}
+
+func (p *Prog) buildScriptMode(asserts []*Term, getValues []string, uninterp bool) string {
+	return p.buildScriptOpts(asserts, getValues, uninterp, false)
+}
+
+func (p *Prog) buildScriptOpts(asserts []*Term, getValues []string, uninterp bool, noLibAxioms bool) string {
 	// reachable spec functions and constants
 	specRoots := map[string]bool{}
 	consts := map[string]*Sort{}
@@ -397,7 +534,7 @@ func (p *Prog) buildScript(asserts []*Term, getValues []string) string {
 		})
 	}
 	scan(asserts)
-	specText, _ := p.specDefsFor(specRoots)
+	specText, _ := p.specDefsFor(specRoots, uninterp)
 	// spec bodies may mention further constants (string literals are in the prelude) and ufuns
 	var bodies []*Term
 	for n := range specRoots {
@@ -437,8 +574,17 @@ func (p *Prog) buildScript(asserts []*Term, getValues []string) string {
 			body.WriteByte('\n')
 		}
 	}
-	body.WriteString(p.axiomText(ufs))
+	if !noLibAxioms {
+		body.WriteString(p.axiomText(ufs))
+	}
 	body.WriteString(specText)
+	if !noLibAxioms && ufs["jsonDecode"] && ufs["jsonOK"] && strings.Contains(specText, "specJSONVal") {
+		for _, sl := range p.w.slices {
+			if sl.Elem == SBV8 {
+				fmt.Fprintf(&body, "(assert (forall ((d %s)) (! (=> (jsonOK d) (specJSONVal (jsonDecode d))) :pattern ((jsonDecode d)))))\n", sl.Name)
+			}
+		}
+	}
 	var cn []string
 	for n := range consts {
 		cn = append(cn, n)
@@ -512,6 +658,9 @@ func (p *Prog) axiomText(ufs map[string]bool) string {
 		if lt != "" {
 			fmt.Fprintf(&sb, "(assert (forall ((a %s) (n Int) (i Int) (j Int)) (! (=> (and (<= 0 i) (< i j) (< j n)) (not "+lt+")) :pattern ((select (%[2]s a n) i) (select (%[2]s a n) j)))))\n", as, fn)
 		}
+	}
+	if ufs["atoiVal"] {
+		sb.WriteString("(assert (forall ((s Str)) (! (and (<= (- 9223372036854775808) (atoiVal s)) (<= (atoiVal s) 9223372036854775807)) :pattern ((atoiVal s)))))\n")
 	}
 	for id, es := range p.copyAxioms {
 		cf := "copied_" + id
@@ -590,15 +739,19 @@ func runPortfolioWith(solvers []solverSpec, query string, timeout time.Duration,
 			cmd.Stderr = &out
 			cmd.Run()
 			text := out.String()
-			first := strings.TrimSpace(strings.SplitN(text, "\n", 2)[0])
 			v := "error"
-			switch first {
-			case "unsat", "sat", "unknown":
-				v = first
-			default:
-				if ctx.Err() != nil {
-					v = "timeout"
+			for _, ln := range strings.Split(text, "\n") {
+				ln = strings.TrimSpace(ln)
+				if ln == "" || strings.HasPrefix(ln, "WARNING") {
+					continue
 				}
+				if ln == "unsat" || ln == "sat" || ln == "unknown" {
+					v = ln
+				}
+				break
+			}
+			if v == "error" && ctx.Err() != nil {
+				v = "timeout"
 			}
 			ch <- one{s.name, v, text, time.Since(start).Seconds()}
 		}(s)
@@ -657,8 +810,16 @@ func (p *Prog) dischargeAll(obls []*Obligation, timeout time.Duration, dir strin
 	queries := make([]string, len(obls))
 	light := make([]string, len(obls))
 	coi := make([]string, len(obls))
+	ground := make([]string, len(obls))
+	groundqf := make([]string, len(obls))
 	for i, o := range obls {
 		if o.Verdict == "" {
+			if q, ok := p.BuildQueryGround(o); ok {
+				ground[i] = q
+			}
+			if q, ok := p.buildQueryGround(o, true); ok {
+				groundqf[i] = q
+			}
 			queries[i] = p.BuildQuery(o, nil)
 			if q, ok := p.BuildQueryLight(o); ok {
 				light[i] = q
@@ -678,6 +839,24 @@ func (p *Prog) dischargeAll(obls []*Obligation, timeout time.Duration, dir strin
 			defer wg.Done()
 			defer func() { <-sem }()
 			tag := fmt.Sprintf("q%04d", i)
+			if groundqf[i] != "" {
+				rq := runPortfolioWith(fastSolvers, groundqf[i], timeout/2, dir, tag+"q", false)
+				if rq.verdict == "unsat" {
+					mu.Lock()
+					o.Verdict, o.Solver, o.Secs, o.Output = rq.verdict, rq.solver+"(ground-qf)", rq.secs, rq.output
+					mu.Unlock()
+					return
+				}
+			}
+			if ground[i] != "" {
+				rg := runPortfolioWith(fastSolvers, ground[i], timeout, dir, tag+"g", false)
+				if rg.verdict == "unsat" {
+					mu.Lock()
+					o.Verdict, o.Solver, o.Secs, o.Output = rg.verdict, rg.solver+"(ground)", rg.secs, rg.output
+					mu.Unlock()
+					return
+				}
+			}
 			if coi[i] != "" {
 				// first only the hypotheses in the goal's cone of influence
 				rc := runPortfolioWith(fastSolvers, coi[i], timeout, dir, tag+"c", false)
@@ -722,3 +901,37 @@ var unfoldFuel = func() int {
 	}
 	return 2
 }()
+
+// knownFrom: equalities t == literal implied by a guard (conjunctions: union; disjunctions: intersection).
+func knownFrom(t *Term, depth int) map[*Term]*Term {
+	out := map[*Term]*Term{}
+	if depth > 40 {
+		return out
+	}
+	switch {
+	case t.Head == "and" && t.Bind == nil:
+		for _, a := range t.Args {
+			for k, v := range knownFrom(a, depth+1) {
+				out[k] = v
+			}
+		}
+	case t.Head == "or" && t.Bind == nil && len(t.Args) > 0:
+		first := knownFrom(t.Args[0], depth+1)
+		for _, a := range t.Args[1:] {
+			m := knownFrom(a, depth+1)
+			for k, v := range first {
+				if m[k] != v {
+					delete(first, k)
+				}
+			}
+		}
+		return first
+	case t.Head == "=" && len(t.Args) == 2:
+		if isIntLitTerm(t.Args[1]) && !isIntLitTerm(t.Args[0]) {
+			out[t.Args[0]] = t.Args[1]
+		} else if isIntLitTerm(t.Args[0]) && !isIntLitTerm(t.Args[1]) {
+			out[t.Args[1]] = t.Args[0]
+		}
+	}
+	return out
+}
